@@ -222,6 +222,18 @@ func shortFunc(fn string) string {
 	return fn
 }
 
+// TaskPanic carries a panic out of a scheduled task.
+type TaskPanic struct {
+	Value     any
+	InLibrary bool
+	Site      string
+	Stack     string
+	Task      int
+}
+
+// ClassifyPanic is classifyPanic for other packages of the harness.
+func ClassifyPanic(skip int) (bool, string, string) { return classifyPanic(skip + 1) }
+
 // Protect runs f and converts a panic raised inside lattigo code into
 // (panicked=true, site, message). Panics that originate in harness code, and
 // the harness' own control-flow panics, are re-raised.
